@@ -206,4 +206,183 @@ theorem same_start_ok (signals : List (List ℚ)) (dt start end_ : ℚ) (master 
 example : ∃ out, sameStart [[1, 2, 3], [4, 5, 6]] (1/2) 0 0 1 = .ok out :=
   ⟨[[1, 2, 3], [1, 2, 3]], by decide +kernel⟩
 
+/-! ## C18.d — `Cluster.time_match` -/
+
+/-- **C18.d** (lag search, general form). Master `bm` and slave `om` of equal length `n ≥ steps`; `residual bm om W l` is
+the sum of squared differences over the compared window (`W = n − steps` samples) for the candidate lag `l`
+(`l ≥ 0`: `Σ_k (om[k+l] − bm[k])²`, `l < 0`: `Σ_k (bm[k+|l|] − om[k])²`).  If the candidate `L`, `|L| < steps`, has a residual
+strictly below that of every other candidate lag, the search returns `L`.
+(Ties: the code keeps the earliest candidate in its scan order `0, +0, +1, …, +(steps−1), −0, −1, …`; with a unique
+strict minimum the order is immaterial.) -/
+theorem lag_search_spec (bm om : List ℚ) (n steps : ℕ) (L : ℤ) (hbm : bm.length = n) (hom : om.length = n)
+    (hS : steps ≤ n) (hL : -(steps : ℤ) < L ∧ L < steps)
+    (hmin : ∀ l : ℤ, -(steps : ℤ) < l → l < steps → l ≠ L →
+      residual bm om (n - steps) L < residual bm om (n - steps) l) :
+    lagSearch bm om steps = .ok L :=
+  lagSearch_unique_min bm om n steps L hbm hom hS hL hmin
+
+/-- non-vacuity (hypotheses instantiated): slave = master delayed by 2 samples, `steps = 3` -/
+example : lagSearch [0, 1, 4, 2, 0, 0, 0] [0, 0, 0, 1, 4, 2, 0] 3 = .ok 2 := by
+  apply lag_search_spec _ _ 7 3 2 rfl rfl (by omega) (by omega)
+  intro l h1 h2 h3
+  have h1' : -3 < l := by simpa using h1
+  have h2' : l < 3 := by simpa using h2
+  interval_cases l <;> first
+    | exact absurd rfl h3
+    | (simp [residual, lagSum, leadSum, Finset.sum_range_succ]; try norm_num)
+
+example : lagSearch [0, 1, 4, 2, 0, 0, 0] [0, 0, 0, 1, 4, 2, 0] 3 = .ok 2 ∧
+    lagSearch [0, 0, 0, 1, 4, 2, 0] [0, 1, 4, 2, 0, 0, 0] 3 = .ok (-2) := by decide +kernel
+
+/-- **C18.d** (`time_match_spec`, one master/slave pair). If the slave equals the master delayed (`L ≥ 0`:
+`om[k+L] = bm[k]`) or advanced (`L < 0`: `bm[k+|L|] = om[k]`) by `L` samples on the compared window `k < n − steps`,
+`|L| < steps`, and every other candidate lag has a non-zero residual, then the returned lag is `L`, the new slave
+record has the same length, and on the compared window it coincides with the master. -/
+theorem time_match_pair_spec (bm om : List ℚ) (n steps : ℕ) (L : ℤ) (hbm : bm.length = n) (hom : om.length = n)
+    (hS : steps ≤ n) (hL : -(steps : ℤ) < L ∧ L < steps)
+    (hmatch : (0 ≤ L → ∀ k, k < n - steps → om.getD (k + L.toNat) 0 = bm.getD k 0) ∧
+              (L < 0 → ∀ k, k < n - steps → bm.getD (k + L.natAbs) 0 = om.getD k 0))
+    (huniq : ∀ l : ℤ, -(steps : ℤ) < l → l < steps → l ≠ L → 0 < residual bm om (n - steps) l) :
+    lagSearch bm om steps = .ok L ∧
+    ∃ new, shiftSlave om om L = .ok new ∧ new.length = n ∧
+      (0 ≤ L → ∀ k, k < n - steps → new.getD k 0 = bm.getD k 0) ∧
+      (L < 0 → ∀ k, k < n - steps → new.getD (k + L.natAbs) 0 = bm.getD (k + L.natAbs) 0) := by
+  have hres : residual bm om (n - steps) L = 0 := by
+    unfold residual
+    by_cases h0 : 0 ≤ L
+    · simp only [h0, if_true, lagSum]
+      apply Finset.sum_eq_zero
+      intro k hk
+      rw [hmatch.1 h0 k (Finset.mem_range.mp hk)]; ring
+    · simp only [h0, if_false, leadSum]
+      apply Finset.sum_eq_zero
+      intro k hk
+      rw [hmatch.2 (by omega) k (Finset.mem_range.mp hk)]; ring
+  refine ⟨lagSearch_unique_min bm om n steps L hbm hom hS hL
+    (fun l h1 h2 h3 => by rw [hres]; exact huniq l h1 h2 h3), ?_⟩
+  obtain ⟨new, h1, h2, h3, h4, h5⟩ := shiftSlave_spec om om n L hom (Or.inr ⟨by omega, by omega⟩)
+  refine ⟨new, h1, ?_, ?_, ?_⟩
+  · by_cases hz : L = 0
+    · rw [h2 hz, hom]
+    · exact h3 hz
+  · intro h0 k hk
+    by_cases hz : L = 0
+    · rw [h2 hz]
+      have := hmatch.1 h0 k hk
+      rw [hz] at this
+      simpa using this
+    · rw [h4 (by omega) k (by omega)]
+      exact hmatch.1 h0 k hk
+  · intro h0 k hk
+    rw [h5 h0 k (by omega)]
+    exact (hmatch.2 h0 k hk).symm
+
+/-- non-vacuity (hypotheses instantiated): the slave is the master advanced by one sample, `steps = 2` -/
+example : lagSearch [0, 0, 1, 4, 2, 0] [0, 1, 4, 2, 0, 0] 2 = .ok (-1) :=
+  (time_match_pair_spec [0, 0, 1, 4, 2, 0] [0, 1, 4, 2, 0, 0] 6 2 (-1) rfl rfl (by omega) (by omega)
+    ⟨fun h => by omega, fun _ k hk => by
+      have : k < 4 := by omega
+      interval_cases k <;> simp⟩
+    (fun l h1 h2 h3 => by
+      have h1' : -2 < l := by simpa using h1
+      have h2' : l < 2 := by simpa using h2
+      interval_cases l <;> first
+        | exact absurd rfl h3
+        | (simp [residual, lagSum, leadSum, Finset.sum_range_succ]; try norm_num))).1
+
+example : shiftSlave [0, 0, 0, 1, 4, 2, 0] [0, 0, 0, 1, 4, 2, 0] 2 = .ok [0, 1, 4, 2, 0, 0, 0] ∧
+    shiftSlave [5, 1, 4, 2, 0, 0, 0] [5, 1, 4, 2, 0, 0, 0] (-2) = .ok [5, 5, 5, 1, 4, 2, 0] := by decide +kernel
+
+/-- **C18.d** (`time_match_spec`, whole cluster; all records of length `n ≥ steps`). If `time_match` returns `(lag, out)`:
+the number of records, every record length and the master are unchanged; every slave `k` whose residual has a unique
+strict minimum at `L` among the candidate lags is replaced by `shiftSlave s s L` (described by `time_match_pair_spec`);
+and the returned `lag` is that of the **last** slave in cluster order. -/
+theorem time_match_spec (signals : List (List ℚ)) (master steps n : ℕ) (lag : ℤ) (out : List (List ℚ))
+    (hlen : ∀ s ∈ signals, s.length = n) (hS : steps ≤ n)
+    (h : timeMatch signals master steps = .ok (lag, out)) :
+    out.length = signals.length ∧ (∀ o ∈ out, o.length = n) ∧
+    ∃ m, signals[master]? = some m ∧ out[master]? = some m ∧
+      ∀ k s (L : ℤ), k ≠ master → signals[k]? = some s → -(steps : ℤ) < L → L < steps →
+        (∀ l : ℤ, -(steps : ℤ) < l → l < steps → l ≠ L →
+          residual m s (n - steps) L < residual m s (n - steps) l) →
+        ∃ o, out[k]? = some o ∧ shiftSlave s s L = .ok o ∧
+          ((∀ k', k < k' → k' < signals.length → k' = master) → lag = L) := by
+  unfold timeMatch at h
+  cases h0 : signals[0]? with
+  | none => simp [h0] at h
+  | some s0 =>
+    cases h1 : signals[1]? with
+    | none => simp [h0, h1] at h
+    | some s1 =>
+      simp only [h0, h1] at h
+      cases hm : signals[master]? with
+      | none => simp [hm] at h
+      | some m =>
+        simp only [hm] at h
+        have l0 : s0.length = n := hlen s0 (List.mem_of_getElem? h0)
+        have l1 : s1.length = n := hlen s1 (List.mem_of_getElem? h1)
+        have lm : m.length = n := hlen m (List.mem_of_getElem? hm)
+        have hlc : min s0.length s1.length = n := by rw [l0, l1]; simp
+        rw [hlc] at h
+        have hmt : m.take n = m := by rw [← lm]; exact List.take_length
+        rw [hmt] at h
+        cases haux : timeMatchAux m n master steps 0 signals none with
+        | error e => simp [haux] at h
+        | ok p =>
+          obtain ⟨l, r⟩ := p
+          simp only [haux] at h
+          cases l with
+          | none => simp at h
+          | some lg =>
+            simp only [Except.ok.injEq, Prod.mk.injEq] at h
+            obtain ⟨e1, e2⟩ := h
+            subst e1; subst e2
+            obtain ⟨hl, hk, _⟩ := timeMatchAux_spec m n master steps 0 signals none (some lg) r haux
+            have htake : ∀ s ∈ signals, s.take n = s := fun s hs => by
+              rw [← hlen s hs]; exact List.take_length
+            refine ⟨hl, ?_, m, rfl, ?_, ?_⟩
+            · intro o ho
+              obtain ⟨k, hk1, hk2⟩ := List.getElem_of_mem ho
+              have hks : k < signals.length := by omega
+              have hsk := hk k signals[k] (List.getElem?_eq_getElem hks)
+              have hmem : signals[k] ∈ signals := List.getElem_mem hks
+              by_cases hkm : 0 + k = master
+              · have := hsk.1 hkm
+                rw [List.getElem?_eq_getElem hk1, hk2] at this
+                simp only [Option.some.injEq] at this
+                rw [this]; exact hlen _ hmem
+              · obtain ⟨mi, s', a1, a2, a3, _⟩ := hsk.2 hkm
+                rw [List.getElem?_eq_getElem hk1, hk2] at a3
+                simp only [Option.some.injEq] at a3
+                rw [htake _ hmem] at a1 a2
+                have hr := lagSearch_range m signals[k] steps mi a1
+                obtain ⟨new, b1, b2, b3, _, _⟩ := shiftSlave_spec signals[k] signals[k] n mi (hlen _ hmem)
+                  (by rcases hr with hr | hr
+                      · left; exact hr
+                      · right; constructor <;> omega)
+                rw [a2] at b1
+                simp only [Except.ok.injEq] at b1
+                rw [a3, b1]
+                by_cases hz : mi = 0
+                · rw [b2 hz]; exact hlen _ hmem
+                · exact b3 hz
+            · have := (hk master m hm).1 (by omega)
+              exact this
+            · intro k s L hkm hs hL1 hL2 hmin
+              have hmem : s ∈ signals := List.mem_of_getElem? hs
+              obtain ⟨mi, s', a1, a2, a3, a4⟩ := (hk k s hs).2 (by omega)
+              rw [htake _ hmem] at a1 a2
+              have := lagSearch_unique_min m s n steps L lm (hlen _ hmem) hS ⟨hL1, hL2⟩ hmin
+              rw [a1] at this
+              simp only [Except.ok.injEq] at this
+              subst this
+              refine ⟨s', a3, a2, fun hall => ?_⟩
+              have := a4 (fun k' h1 h2 => by have := hall k' h1 h2; omega)
+              simpa using this
+
+/-- non-vacuity: three signals, master 1; slave 0 is the master delayed by 1, slave 2 advanced by 2; `steps = 3` -/
+example : timeMatch [[9, 0, 1, 4, 2, 0, 0, 0], [0, 1, 4, 2, 0, 0, 0, 0], [4, 2, 0, 0, 0, 0, 7, 7]] 1 3
+    = .ok (-2, [[0, 1, 4, 2, 0, 0, 0, 0], [0, 1, 4, 2, 0, 0, 0, 0], [4, 4, 4, 2, 0, 0, 0, 0]]) := by
+  decide +kernel
+
 end EqsigVerif.Props.C18
